@@ -1156,13 +1156,13 @@ Proof.
   - intros cls C. rewrite hlist_add. destruct (cls =? CLS_READY)%nat eqn:E; [|apply H5, C].
     apply Nat.eqb_eq in E. unfold CLS_READY in E. lia.
 Qed.
-Lemma HsOK_add_custom k hs cls hid data : HsOK k hs -> 5 <= cls -> 3 <= hid < 10 -> HsOK k (add_handler hs cls hid data).
+Lemma HsOK_add_custom k hs cls hid data : HsOK k hs -> (cls = 0 \/ 5 <= cls) -> 3 <= hid < 10 -> HsOK k (add_handler hs cls hid data).
 Proof.
   intros (H1 & H2 & H3 & H4 & H5) C Hh. unfold HsOK. rewrite !hlist_add.
-  assert (E : forall c, c < 5 -> (c =? cls)%nat = false) by (intros c L; apply Nat.eqb_neq; lia).
+  assert (E : forall c, 1 <= c < 5 -> (c =? cls)%nat = false) by (intros c L; apply Nat.eqb_neq; lia).
   rewrite !E by (unfold CLS_RENDER, CLS_CLOSE, CLS_RECEIVED, CLS_READY; lia).
   repeat split; auto. intros cls' C'. rewrite hlist_add. destruct (cls' =? cls)%nat; [|apply H5, C'].
-  apply Forall_app. split; [apply H5; right; exact C|]. constructor; [exact Hh|constructor].
+  apply Forall_app. split; [apply H5; exact C|]. constructor; [exact Hh|constructor].
 Qed.
 
 Definition en_of (d : sdata) : ScreenMon.entry :=
@@ -2069,11 +2069,11 @@ Section Scr.
   Proof.
     intros K n Q s HS HI HQ. open_inv HI. step HAt; [chk_side HQf|]. apply HQ.
     eapply At_Inv; [exact HAt| |quiet_auto HQf]. core_auto.
-    apply HsOK_add_custom; [exact c_hs0|unfold CLS_CUSTOM; lia|unfold H_CUSTOM; lia].
+    apply HsOK_add_custom; [exact c_hs0|unfold CLS_CUSTOM, CLS_EXCEPTION; destruct (c =? 99)%nat; [left; reflexivity|right; lia]|unfold H_CUSTOM; lia].
   Qed.
   Lemma IT_emit_custom c p self : IT (PApi (AEnqueue {| sp_cls := CLS_CUSTOM c; sp_prio := p; sp_src := Some self; sp_a := 0;
                                                          sp_b := false; sp_data := [] |})).
-  Proof. apply IT_enq_other; cbn [sp_cls]; unfold CLS_CUSTOM, CLS_READY, CLS_RECEIVED; lia. Qed.
+  Proof. apply IT_enq_other; cbn [sp_cls]; unfold CLS_CUSTOM, CLS_READY, CLS_RECEIVED, CLS_EXCEPTION; destruct (c =? 99)%nat; lia. Qed.
 
   Lemma forallb_Forall_wf l : forallb (scmd_wf N fresh) l = true -> Forall (fun c => scmd_wf N fresh c = true) l.
   Proof. intros H. apply Forall_forall. intros x I. rewrite forallb_forall in H. auto. Qed.
